@@ -374,3 +374,28 @@ def block_line(body, bb):
     if t and "sp" in t:
         return t["sp"][0]
     return body.lo
+
+
+def enclosing_loop_next(body, bb):
+    """innermost `Iterator::next` call that controls a loop containing block bb (for-loops), or None"""
+    cands = []
+    for c in body.calls:
+        if c.callee == "std::iter::Iterator::next" or (c.callee or "").endswith("StreamExt::next"):
+            if body.dominates(c.bb, bb) and c.bb != bb and body.can_reach(bb, c.bb):
+                cands.append(c)
+    if not cands:
+        return None
+    # innermost: dominated by all the others
+    cands.sort(key=lambda c: len(body.dom[c.bb]))
+    return cands[-1]
+
+
+def none_of(body, pats):
+    """calls in body matching any regex"""
+    out = []
+    for c in body.calls:
+        for p in pats:
+            if c.matches(p):
+                out.append(c)
+                break
+    return out
